@@ -28,6 +28,10 @@ GROUPS = {
         U("values", "ToThreadInExecutor"), U("values", "SyncExecute"), U("values", "StrictDictSetitem"), U("values", "BiDictSetitem"),
         U("values", "CopyNonSetupXns"), U("values", "GetReturnValues"),
     ],
+    "dagadmin": [
+        U("dagadmin", "PostInit"), U("dagadmin", "AliasToIds"), U("dagadmin", "PreSetup"), U("dagadmin", "Setup", "sync"), U("dagadmin", "Setup", "async"),
+        U("dagadmin", "ExecutionPostInit"), U("dagadmin", "PostCall"), U("dagadmin", "ResultsProperty"), U("dagadmin", "ConfigFromDict"),
+    ],
     "nodeexec": [U("nodeexec", "Execute"), U("nodeexec", "Dependencies"), U("nodeexec", "ConfToValues")],
     "threads": [U("threads", "InDescriptionContext"), U("threads", "ThreadsafeMakeDag")],
 }
